@@ -147,6 +147,8 @@ pub struct World {
   pub built: Mutex<BTreeMap<usize, TBox>>,
   pub handles: Mutex<Vec<Option<BoxSubscriptionThreads>>>,
   pub statuses: Mutex<Vec<Arc<rxrust::ops::complete_status::CompleteStatus>>>,
+  /// who created handle h (same key as the probe / task it belongs to)
+  pub hnames: Mutex<Vec<String>>,
   pub off: i64,
 }
 
@@ -172,11 +174,57 @@ impl World {
           let src = self.built(self.env.prog[root - 1].s1);
           let (op, status) = src.complete_status();
           self.statuses.lock().unwrap().push(status);
-          BoxSubscriptionThreads::new(op.actual_subscribe(CProbe { name }))
+          BoxSubscriptionThreads::new(op.actual_subscribe(CProbe { name: name.clone() }))
         } else {
-          self.built(root).actual_subscribe(CProbe { name })
+          self.built(root).actual_subscribe(CProbe { name: name.clone() })
         };
         self.handles.lock().unwrap().push(Some(h));
+        self.hnames.lock().unwrap().push(name);
+        Val::U
+      }
+      // ---- tasks handed to the scheduler directly; the pools of VSched are thread-local, so the
+      // ---- thread that schedules a task is the one that polls it
+      "tsched" => {
+        use rxrust::scheduler::{NormalReturn, OnceTask, RepeatTask, SubscribeReturn};
+        let delay = if s.b >= 0 { Some(crate::vsched::dur(s.b)) } else { None };
+        let sched = crate::vsched::VSched;
+        let h = match s.a {
+          1 => {
+            fn once(name: String) -> NormalReturn<()> {
+              record(json!({"k": "log", "th": TID.with(|t| t.get()), "p": name, "t": "R", "v": Val::I(0).to_json()}));
+              NormalReturn::new(())
+            }
+            BoxSubscriptionThreads::new(sched.schedule(OnceTask::new(once, name.clone()), delay))
+          }
+          2 => {
+            fn rep(name: &mut String, seq: usize) -> bool {
+              record(json!({"k": "log", "th": TID.with(|t| t.get()), "p": name.clone(), "t": "R", "v": Val::I(seq as i64).to_json()}));
+              seq < 2
+            }
+            BoxSubscriptionThreads::new(sched.schedule(RepeatTask::new(crate::vsched::dur(s.b), rep, name.clone()), None))
+          }
+          _ => {
+            fn subscribing(name: String) -> SubscribeReturn<CFlagSub> {
+              record(json!({"k": "log", "th": TID.with(|t| t.get()), "p": name.clone(), "t": "R", "v": Val::I(0).to_json()}));
+              SubscribeReturn::new(CFlagSub { name, closed: Arc::new(std::sync::atomic::AtomicBool::new(false)) })
+            }
+            BoxSubscriptionThreads::new(sched.schedule(OnceTask::new(subscribing, name.clone()), delay))
+          }
+        };
+        self.handles.lock().unwrap().push(Some(h));
+        self.hnames.lock().unwrap().push(name);
+        Val::U
+      }
+      "adv" => {
+        crate::vsched::advance(s.a);
+        Val::U
+      }
+      "run" => {
+        crate::vsched::run_task(s.a as usize);
+        Val::U
+      }
+      "runall" => {
+        crate::vsched::run_all();
         Val::U
       }
       "emit" => {
@@ -189,7 +237,7 @@ impl World {
         Val::U
       }
       "unsub" => {
-        let h = self.handles.lock().unwrap()[(s.a - 1) as usize].take();
+        let h = self.handles.lock().unwrap().get_mut((s.a - 1) as usize).and_then(|x| x.take());
         if let Some(h) = h {
           h.unsubscribe();
         }
@@ -197,7 +245,7 @@ impl World {
       }
       "closed" => {
         // is_closed() runs without the harness lock held
-        let h = self.handles.lock().unwrap()[(s.a - 1) as usize].take();
+        let h = self.handles.lock().unwrap().get_mut((s.a - 1) as usize).and_then(|x| x.take());
         let r = match &h {
           Some(h) => Val::B(h.is_closed()),
           None => Val::B(true),
@@ -223,6 +271,21 @@ impl World {
       }
       other => panic!("harness: stimulus {other} not supported by the thread controller"),
     }
+  }
+}
+
+/// the subscription a subscribing harness task produces
+pub struct CFlagSub {
+  name: String,
+  closed: Arc<std::sync::atomic::AtomicBool>,
+}
+impl Subscription for CFlagSub {
+  fn unsubscribe(self) {
+    self.closed.store(true, std::sync::atomic::Ordering::SeqCst);
+    record(json!({"k": "log", "th": TID.with(|t| t.get()), "p": self.name, "t": "U", "v": Val::U.to_json()}));
+  }
+  fn is_closed(&self) -> bool {
+    self.closed.load(std::sync::atomic::Ordering::SeqCst)
   }
 }
 
@@ -264,8 +327,10 @@ pub fn run_once(case: &CaseSpec, prefix: &[usize]) -> RunResult {
     built: Mutex::new(BTreeMap::new()),
     handles: Mutex::new(vec![]),
     statuses: Mutex::new(vec![]),
+    hnames: Mutex::new(vec![]),
     off: case.off,
   });
+  crate::vsched::reset();
   // single-threaded set-up on this (uncontrolled) thread
   SETUP_LOG.with(|l| l.borrow_mut().clear());
   let mut nsetup = 0;
@@ -291,10 +356,11 @@ pub fn run_once(case: &CaseSpec, prefix: &[usize]) -> RunResult {
       for (i, s) in script.iter().enumerate() {
         wait_turn(false, None);
         record(json!({"k": "call", "th": t, "i": i + 1, "s": s.to_json()}));
+        let gone = if s.k == "unsub" { world2.hnames.lock().unwrap().get((s.a - 1) as usize).cloned() } else { None };
         let r = catch_unwind(AssertUnwindSafe(|| world2.call(s, format!("t{t}c{}", i + 1))));
         match r {
           Ok(v) => {
-            record(json!({"k": "ret", "th": t, "i": i + 1, "v": v.to_json()}));
+            record(json!({"k": "ret", "th": t, "i": i + 1, "v": v.to_json(), "gone": gone}));
             rets2.lock().unwrap()[t - 1].push(v.to_json());
           }
           Err(e) => {
@@ -408,17 +474,11 @@ pub fn outcome(r: &RunResult) -> J {
   // subscribers whose subscription's unsubscribe() has returned, and whether one of them was called afterwards
   let mut gone: Vec<String> = vec![];
   let mut late = false;
-  let mut pending_unsub: BTreeMap<(u64, u64), String> = BTreeMap::new();
   for e in &r.events {
     match e["k"].as_str().unwrap_or("") {
-      "call" => {
-        if e["s"]["k"] == "unsub" {
-          pending_unsub.insert((e["th"].as_u64().unwrap(), e["i"].as_u64().unwrap()), format!("s{}", e["s"]["a"]));
-        }
-      }
       "ret" => {
-        if let Some(p) = pending_unsub.remove(&(e["th"].as_u64().unwrap(), e["i"].as_u64().unwrap())) {
-          gone.push(p);
+        if let Some(p) = e["gone"].as_str() {
+          gone.push(p.to_string());
         }
       }
       "log" => {
